@@ -1020,12 +1020,12 @@ pub fn c01_subs() -> Vec<Box<dyn Sub>> {
                         let n = m.types.len();
                         (Just(m), vec(any::<bool>(), n..=n))
                     })
-                    .prop_map(|(m, mask)| crate::p_reg::C10Case { m, mask })
+                    .prop_map(|(m, mask)| crate::p_reg::C10Case { m, mask, outside: false })
                     .boxed()
             }),
             body: Box::new(|c: &crate::p_reg::C10Case, obs: &mut Obs| {
                 let mask = &c.mask;
-                let (_, out) = check_retain(&c.m, &|id| mask[id as usize])?;
+                let (_, out) = check_retain(&c.m, &|id| mask.get(id as usize).copied().unwrap_or(false))?;
                 let lib = to_lib(&out);
                 wf_lib(&lib)?;
                 let enc = lib.encode();
